@@ -149,7 +149,8 @@ def rewriteCb (tol : α) (fn : Pt α → Char → List α → Except PyErr (Cmd 
   fun start curr cmd args _ => do
     let (nc, na) ← fn curr cmd args
     let np ← nextPos curr nc na
-    if !(np == start) && ptAlmostEq tol np start then do
+    -- … except for an arc that sets out from the subpath start (moved onto its own start it would be zero-length)
+    if !(np == start) && ptAlmostEq tol np start && !((nc == 'A' || nc == 'a') && curr == start) then do
       let r ← moveEndpoint curr nc na start
       pure [r]
     else pure [(nc, na)]
